@@ -32,6 +32,8 @@ pub mod prelude;
 #[cfg(test)]
 pub mod test_util;
 mod util;
+#[cfg(feature = "verif-hooks")]
+pub mod verif_hooks;
 pub mod welcomes;
 
 use self::callback::{MdkCallback, RollbackInfo};
@@ -251,6 +253,8 @@ where
                 .duration_since(std::time::UNIX_EPOCH)
                 .expect("System time before Unix epoch")
                 .as_secs();
+            #[cfg(feature = "verif-hooks")]
+            let current_time = crate::verif_hooks::startup_now(current_time);
             let min_timestamp = current_time.saturating_sub(self.config.snapshot_ttl_seconds);
             if let Ok(pruned_count) = self.storage.prune_expired_snapshots(min_timestamp)
                 && pruned_count > 0
